@@ -40,9 +40,9 @@ def gen_config(rng, max_vars, rep_choices, allow_none_name=False):
         unpacked = {}
     fixed = {}
     for nm in rng.sample(["nt", "scen", "taps"], rng.choice([0, 1, 1, 2])):
-        fixed[nm] = rng.choice([2, 7, "urban", [1, 2], 0.5])
+        fixed[nm] = rng.choice([2, 7, "urban", [1, 2], 0.5, {"__nd__": [1.5, 2.5, 4.0]}])
     tmpl = ["res"]
-    scalars = [k for k, v in fixed.items() if not isinstance(v, list)]
+    scalars = [k for k, v in fixed.items() if not isinstance(v, (list, dict))]
     if scalars and rng.random() < 0.5:
         tmpl.append("res_{%s}" % rng.choice(scalars))
     if unpacked and rng.random() < 0.3:
@@ -126,7 +126,10 @@ def mutate_config(rng, cfg):
     if kind == "fixed_value":
         k = rng.choice(sorted(c2["fixed"]))
         old = c2["fixed"][k]
-        c2["fixed"][k] = (old + 1) if isinstance(old, (int, float)) else ([9] if isinstance(old, list) else old + "_x")
+        if isinstance(old, dict):
+            c2["fixed"][k] = {"__nd__": [old["__nd__"][0]] + [x + 1 for x in old["__nd__"][1:]]}     # only later elements differ
+        else:
+            c2["fixed"][k] = (old + 1) if isinstance(old, (int, float)) else ([9] if isinstance(old, list) else old + "_x")
     elif kind == "unpacked_value":
         k = rng.choice(sorted(c2["unpacked"]))
         vals = c2["unpacked"][k]["values"]
@@ -372,7 +375,9 @@ def gen_plan_c05(rng, tier, idx, opts):
     for k in range(n):
         inc = {"params": "P1", "call": {"kind": "all"}, "fault": None, "same_runner": rng.random() < 0.8}
         if has_name and rng.random() < 0.3:
-            inc["call"] = {"kind": "index", "i": rng.randrange(nv)}
+            inc["call"] = {"kind": "index", "i": rng.randrange(nv), "as_str": rng.random() < 0.3}
+        if has_name and k > 0 and rng.random() < 0.15:
+            inc["set_delete"] = rng.random() < 0.5
         if k > 0 and rng.random() < 0.35:
             inc["set_rep_max"] = max(1, cfg["rep_max"] + rng.choice([-2, -1, 1, 2, 3, 5]))
         plan["incarnations"].append(inc)
